@@ -5,7 +5,9 @@ cKeyOrd == <<"v1", "v2", "none", "v3", "v4", "v9">>
 cGenesis == [keypers |-> <<"a1", "a2", "a3">>, thr |-> 2, eon0 |-> 0,
              vals |-> [k \in {"v1", "v2", "none", "v3", "v4", "v9"} |-> IF k = "v9" THEN 10 ELSE 0],
              forkOn |-> FALSE, forkH |-> 0]
+(* candidates 1 and 2 differ ONLY in the threshold: votes for them must not be merged *)
 cCands == << [keypers |-> <<"a1", "a2", "a3", "a4">>, thr |-> 2, act |-> 5, idx |-> 1],
+             [keypers |-> <<"a1", "a2", "a3", "a4">>, thr |-> 1, act |-> 5, idx |-> 1],
              [keypers |-> <<"a2", "a4">>, thr |-> 1, act |-> 5, idx |-> 2],
              [keypers |-> <<"a1", "a2", "a3">>, thr |-> 3, act |-> 3, idx |-> 1] >>
 cSeenBlocks == {5}
